@@ -17,7 +17,7 @@ Not decided: the solvency inequality over histories.
 import re
 
 from facts import short_name
-from kinds import (k1_callers, on_all_success_paths, error_cut, k2_site_guarded)
+from kinds import (comparisons, k1_callers, on_all_success_paths, error_cut, k2_site_guarded)
 import c18
 
 CRATES = ["astria_sequencer.lib"]
@@ -60,7 +60,47 @@ def fields(body, rv):
     return dict(zip(rv[5], [body.root(o) for o in rv[4]]))
 
 
+def b1_asset_guard(prog, rep):
+    """Every ICS20 deposit is in the bridge account's own asset: the publication of a deposit
+    (`cache_deposit_event` / `record(create_deposit_event)` in emit_deposit) lies behind
+    `get_bridge_account_ibc_asset(bridge_address) == asset.to_ibc_prefixed()`, either inside
+    emit_deposit itself (then every caller - receive *and* refund - is covered) or, failing that,
+    in front of every call of emit_deposit."""
+    ICS = S + "ibc::ics20_transfer::"
+    fn = ICS + "emit_deposit"
+    b = prog.main_body(fn)
+
+    def guards(body):
+        return [c for c in comparisons(body) if c.op == "Eq"
+                and "get_bridge_account_ibc_asset(" in c.a + c.b and "to_ibc_prefixed(" in c.a + c.b]
+    pubs = [c for c in b.calls if short_name(c.callee) in ("cache_deposit_event",)]
+    rep.floor("B1", len(pubs), 1, "deposit publication in emit_deposit")
+    g = guards(b)
+    inside = bool(g) and all(b.must_pass_edges(set(g[0].true_edges), p.bb) for p in pubs)
+    if inside:
+        a = g[0].a + "|" + g[0].b
+        rep.check("bridge_address" in a and "to_ibc_prefixed(asset)" in a, "B1",
+                  "ics20:deposit<=asset-is-bridge-asset",
+                  f"the asset guard in emit_deposit compares {a[:120]}", b.describe())
+        return
+    callers = prog.callers_of(fn)
+    bad = []
+    for owner, calls in sorted(callers.items()):
+        if is_test_owner(owner):
+            continue
+        for c in calls:
+            cg = guards(c.body)
+            if not (cg and c.body.must_pass_edges(set(cg[0].true_edges), c.bb)):
+                bad.append(short_name(owner))
+    rep.check(not bad, "B1", "ics20:deposit<=asset-is-bridge-asset",
+              f"a deposit can be published for a bridge account in an asset other than the one it "
+              f"bridges: emit_deposit no longer checks the asset and {sorted(set(bad))} call(s) it "
+              "without having checked it (the refund path of a rollup withdrawal goes through "
+              "emit_deposit as well)", b.describe())
+
+
 def b1(prog, rep):
+    b1_asset_guard(prog, rep)
     cache = BR + "StateWriteExt::cache_deposit_event"
     k1_callers(prog, rep, "B1", [cache], [LOCK + "record_deposit", ICS + "emit_deposit"], floor=2,
                ignore_owner=is_test_owner)
